@@ -5,7 +5,9 @@ use std::sync::Arc;
 
 use actix::prelude::*;
 use actix_web::dev::HttpServiceFactory;
-use actix_web::{get, http::header, put, web, HttpResponse, Responder, Scope};
+use actix_web::{
+    get, http::header, put, web, HttpMessage, HttpRequest, HttpResponse, Responder, Scope,
+};
 use serde::{Deserialize, Serialize};
 
 use crate::common::appdata::AppShareData;
@@ -20,6 +22,7 @@ use crate::naming::{
 };
 use crate::openapi::constant::EMPTY;
 use crate::openapi::naming::model::{BeatRequest, InstanceWebParams, InstanceWebQueryListParams};
+use crate::user_namespace_privilege;
 use crate::utils::{get_bool_from_string, select_option_by_clone};
 
 pub(super) fn service() -> Scope {
@@ -37,9 +40,19 @@ pub(super) fn service() -> Scope {
 }
 
 pub async fn get_instance(
+    req: HttpRequest,
     param: web::Query<InstanceWebParams>,
     naming_addr: web::Data<Addr<NamingActor>>,
 ) -> impl Responder {
+    // only a console session carries a namespace privilege (/rnacos/api/console/ns/instance)
+    let namespace_privilege = user_namespace_privilege!(req);
+    let namespace_id = Arc::new(param.namespace_id.clone().unwrap_or_default());
+    if !namespace_privilege.check_permission(&namespace_id) {
+        return HttpResponse::Unauthorized().body(format!(
+            "user no such namespace permission: {}",
+            namespace_id.as_str()
+        ));
+    }
     let instance = param.0.convert_to_instance();
     match instance {
         Ok(instance) => match naming_addr.send(NamingCmd::Query(instance)).await {
@@ -62,11 +75,21 @@ pub async fn get_instance(
 }
 
 pub async fn update_instance(
+    req: HttpRequest,
     param: web::Query<InstanceWebParams>,
     payload: web::Payload,
     appdata: web::Data<Arc<AppShareData>>,
 ) -> impl Responder {
     let param = merge_web_param!(param.0, payload);
+    // only a console session carries a namespace privilege (/rnacos/api/console/ns/instance)
+    let namespace_privilege = user_namespace_privilege!(req);
+    let namespace_id = Arc::new(param.namespace_id.clone().unwrap_or_default());
+    if !namespace_privilege.check_permission(&namespace_id) {
+        return HttpResponse::Unauthorized().body(format!(
+            "user no such namespace permission: {}",
+            namespace_id.as_str()
+        ));
+    }
     let update_tag = InstanceUpdateTag {
         weight: match &param.weight {
             Some(v) => *v != 1.0f32,
@@ -107,11 +130,21 @@ pub async fn update_instance(
 }
 
 pub async fn del_instance(
+    req: HttpRequest,
     param: web::Query<InstanceWebParams>,
     payload: web::Payload,
     appdata: web::Data<Arc<AppShareData>>,
 ) -> impl Responder {
     let param = merge_web_param!(param.0, payload);
+    // only a console session carries a namespace privilege (/rnacos/api/console/ns/instance)
+    let namespace_privilege = user_namespace_privilege!(req);
+    let namespace_id = Arc::new(param.namespace_id.clone().unwrap_or_default());
+    if !namespace_privilege.check_permission(&namespace_id) {
+        return HttpResponse::Unauthorized().body(format!(
+            "user no such namespace permission: {}",
+            namespace_id.as_str()
+        ));
+    }
     let instance = param.convert_to_instance();
     match instance {
         Ok(instance) => {
